@@ -97,6 +97,7 @@ type args struct {
 	calls      int    // callback invocations so far
 	panicAt    int    // > 0: the callback panics on that invocation (the caller recovers)
 	during     string // first disturbance seen from inside a callback
+	env        *env
 }
 
 type cbPanic struct{}
@@ -178,6 +179,34 @@ func (a *args) maps(ms ...map[string]int) []map[string]int {
 	t.before = t.sig()
 	a.tracked = append(a.tracked, t)
 	return o
+}
+
+// keys builds a tracked []string for a spread variadic key list (Omit(m, ks...), Pick(m, ks...)).
+func (a *args) keys(ks ...string) []string {
+	o := make([]string, len(ks), len(ks)+a.spare)
+	copy(o, ks)
+	full := o[:cap(o)]
+	for i := len(ks); i < len(full); i++ {
+		full[i] = "sentinel"
+	}
+	t := &tracked{what: "key list passed as spread variadic argument", sig: func() string { return strings.Join(full, "|") }}
+	t.before = t.sig()
+	a.tracked = append(a.tracked, t)
+	return o
+}
+
+// env carries what two calls of a pair share besides the first argument: one function made
+// by Flip (its results must not share storage from one call to the next).
+type env struct{ flip func(...int) []int }
+
+func (a *args) flipped() func(...int) []int {
+	if a.env == nil {
+		a.env = &env{}
+	}
+	if a.env.flip == nil {
+		a.env.flip = gogu.Flip(func(xs ...int) []int { return append([]int{}, xs...) })
+	}
+	return a.env.flip
 }
 
 // m2 is a second map for collections (derived from the map argument, never handed out twice).
@@ -320,6 +349,8 @@ var adapters = []adapter{
 		return h.Size()
 	}},
 	{"heap.Sort", 0, 1, func(a *args) any { return heap.Sort(a.sl(0), func(x, y int) bool { return x > y }) }},
+	{"Flip", -1, 1, func(a *args) any { return a.flipped()(a.sl(0)...) }},
+	{"Flip2", -1, 2, func(a *args) any { return a.flipped()(a.sl(1)...) }},
 	{"heap.Sort<", 0, 1, func(a *args) any { return heap.Sort(a.sl(0), func(x, y int) bool { return x < y }) }},
 	// map helpers
 	{"Keys", -1, 0, func(a *args) any { return gogu.Keys(a.m) }},
@@ -339,6 +370,8 @@ var adapters = []adapter{
 	{"PickBy", -1, 0, func(a *args) any { return gogu.PickBy(a.m, func(k string, v int) bool { a.observe(); return veven(v) }) }},
 	{"Omit", -2, 0, func(a *args) any { return gogu.Omit(a.m, "a", "c") }},
 	{"OmitBy", -2, 0, func(a *args) any { return gogu.OmitBy(a.m, func(k string, v int) bool { a.observe(); return veven(v) }) }},
+	{"Pick...", -1, 0, func(a *args) any { r, _ := gogu.Pick(a.m, a.keys("a", "zz", "c", "b")...); return r }},
+	{"Omit...", -2, 0, func(a *args) any { return gogu.Omit(a.m, a.keys("c", "a", "zz", "b", "d")...) }},
 	{"FilterMap", -1, 0, func(a *args) any { return gogu.FilterMap(a.m, a.veven) }},
 	{"Pluck", -1, 0, func(a *args) any { return gogu.Pluck(a.maps(a.m, a.m2(), a.m), "a") }},
 	{"PartitionMap", -1, 0, func(a *args) any {
@@ -361,9 +394,38 @@ var views = map[string]bool{"Drop": true, "Chunk": true, // windows of the argum
 
 // immutable lists exported helpers whose arguments are strings or scalars only
 // (Go strings are immutable; nothing can be disturbed).
-var immutable = []string{"Null", "Substr", "ToLower", "ToUpper", "Capitalize", "CamelCase", "SnakeCase", "KebabCase",
+var immutable = []string{"Null", "Flip", // Flip is exercised through the Flip/Flip2 adapters
+	 "Substr", "ToLower", "ToUpper", "Capitalize", "CamelCase", "SnakeCase", "KebabCase",
 	"PadLeft", "PadRight", "Pad", "SplitAtIndex", "Wrap", "Unwrap", "WrapAllRune", "ReverseStr",
 	"Abs", "Clamp", "InRange", "N", "NumToString", "Compare", "Equal", "Less"}
+
+
+// resultParts lists the []int parts of a composite result (slice/array of slices, map of slices).
+func resultParts(res any) [][]int {
+	if res == nil {
+		return nil
+	}
+	v := reflect.ValueOf(res)
+	var out [][]int
+	add := func(e reflect.Value) {
+		if e.Kind() == reflect.Slice && e.Type().Elem().Kind() == reflect.Int && !e.IsNil() {
+			out = append(out, e.Interface().([]int))
+		}
+	}
+	switch v.Kind() {
+	case reflect.Slice, reflect.Array:
+		for i := 0; i < v.Len(); i++ {
+			add(v.Index(i))
+		}
+	case reflect.Map:
+		keys := v.MapKeys()
+		sort.Slice(keys, func(i, j int) bool { return fmt.Sprint(keys[i]) < fmt.Sprint(keys[j]) })
+		for _, k := range keys {
+			add(v.MapIndex(k))
+		}
+	}
+	return out
+}
 
 func find(name string) *adapter {
 	for i := range adapters {
@@ -471,11 +533,35 @@ func run(w *core.Worker, c Case) {
 			return
 		}
 	}
+	// 1b. the parts of a composite result ([][]T, [2][]T, map[K][]T) must not share storage:
+	// extending one part within its capacity (append, or heap.FromSlice(part) + Push) must leave
+	// the other parts and the arguments alone
+	if !views[ad.name] && ad.inPlace == -1 {
+		if parts := resultParts(res); len(parts) >= 2 {
+			for i, pt := range parts {
+				if cap(pt) == len(pt) {
+					continue
+				}
+				snap := deepCopy(res)
+				_ = append(pt, sentinel-4321)
+				if !reflect.DeepEqual(res, snap) {
+					w.Violation("c16.result-parts-share-storage:"+ad.name, fmt.Sprintf("%s%v = %v: appending one element to part %d (len %d, cap %d) changed another part: now %v", ad.name, c.S, snap, i, len(pt), cap(pt), res))
+					return
+				}
+				for j, f := range a.s {
+					if d := f.diff(false); d != "" {
+						w.Violation("c16.result-parts-share-storage:"+ad.name, fmt.Sprintf("%s%v: appending to part %d of the result wrote into slice argument %d: %s", ad.name, c.S, i, j, d))
+						return
+					}
+				}
+			}
+		}
+	}
 	// 2. an earlier result after a later call on the same (first) argument
 	if c.B != "" {
 		bd := find(c.B)
 		snap := deepCopy(res)
-		b := &args{n: c.N2, m: a.m, spare: c.Spare}
+		b := &args{n: c.N2, m: a.m, spare: c.Spare, env: a.env}
 		if len(a.s) > 0 {
 			b.s = append(b.s, a.s[0])
 			for _, s := range c.S2 {
@@ -540,12 +626,12 @@ func exportedHelpers() []string {
 func TestProp(t *testing.T) {
 	r := core.Start(t, "C16")
 	defer r.Finish()
-	r.Rule("cases = one call of an exported helper (single) or two calls sharing the first argument (pair); every slice argument lives inside a larger backing array with sentinel values before it, in its spare capacity (0, 1 or 8 slots) and behind it; after the call the whole backing array / every map entry must be unchanged (in-place helpers: only elements inside the original length of their one argument may change); the first call's result is deep-copied and must read the same after the second call (which gets different other arguments); the [][]T behind a spread variadic parameter and []map collections are tracked slot by slot (same inner slice/map in every slot, spare slots untouched); heap.Sort's returned slice must survive later in-place calls on the same argument; callbacks passed to a helper re-check the arguments from inside every invocation (not only after the call) and, in a quarter of the cases, panic at their k-th invocation, after which the recovered caller must still find its arguments unchanged; non-trivial = first argument has >= 2 elements; distinct by hash of the case")
+	r.Rule("cases = one call of an exported helper (single) or two calls sharing the first argument (pair); every slice argument lives inside a larger backing array with sentinel values before it, in its spare capacity (0, 1 or 8 slots) and behind it; after the call the whole backing array / every map entry must be unchanged (in-place helpers: only elements inside the original length of their one argument may change); the first call's result is deep-copied and must read the same after the second call (which gets different other arguments); the [][]T behind a spread variadic parameter and []map collections are tracked slot by slot (same inner slice/map in every slot, spare slots untouched); heap.Sort's returned slice must survive later in-place calls on the same argument; callbacks passed to a helper re-check the arguments from inside every invocation (not only after the call) and, in a quarter of the cases, panic at their k-th invocation, after which the recovered caller must still find its arguments unchanged; the parts of a composite result (Zip/Unzip rows, Partition halves, GroupBy groups) must not share capacity with each other or with an argument (probe: append one element to each part); the function made by Flip must not reuse its result storage from one call to the next; non-trivial = first argument has >= 2 elements; distinct by hash of the case")
 
 	// coverage of the adapter table against the package's exported functions
 	have := map[string]bool{}
 	for _, a := range adapters {
-		have[strings.TrimPrefix(strings.TrimSuffix(strings.TrimSuffix(strings.TrimSuffix(a.name, "1"), "..."), "<"), "heap.")] = true
+		have[strings.TrimPrefix(strings.TrimSuffix(strings.TrimSuffix(strings.TrimSuffix(strings.TrimSuffix(a.name, "1"), "2"), "..."), "<"), "heap.")] = true
 	}
 	for _, n := range immutable {
 		have[n] = true
